@@ -21,6 +21,7 @@ UNITS = {
     'rollback': dict(module='units.rollback', rlimit=50, timeout=300),
     'arrow': dict(module='units.arrow', rlimit=150, timeout=600),
     'slpp': dict(module='units.slpp', rlimit=150, timeout=600),
+    'verstr': dict(module='units.verstr', rlimit=50, timeout=300),
 }
 
 PROPS = {
@@ -63,7 +64,7 @@ PROPS = {
         kani=[],
     ),
     'C07': dict(
-        units=[('reader', r'(C07|^read$|^parse_header|^parse_payloads|^parse_game_start|^parse_start|^parse_metadata|expect_bytes)'), ('event', r'(C07|parse_event__total)'), ('ubjson', r'(C07)'), ('slpp', r'(C07|read_arrow_frames)')],
+        units=[('reader', r'(C07|^read$|^parse_header|^parse_payloads|^parse_game_start|^parse_start|^parse_metadata|expect_bytes)'), ('event', r'(C07|parse_event__total)'), ('ubjson', r'(C07)'), ('slpp', r'(C07|read_arrow_frames|(^|::)read$)')],
         kani=[],
     ),
     'C12': dict(
@@ -71,7 +72,7 @@ PROPS = {
         kani=[],
     ),
     'C10': dict(
-        units=[('reader', r'(C10|^read$|^parse_start)'), ('slpp', r'(C10|lemma_skip_frames)')],
+        units=[('reader', r'(C10|^read$|^parse_start)'), ('slpp', r'(C10|lemma_skip_frames|(^|::)read$)')],
         kani=[],
     ),
     'C08': dict(
@@ -83,7 +84,7 @@ PROPS = {
         kani=['c09_assert_max_version'],
     ),
     'C20': dict(
-        units=[('codec_mut', r'(Version)')],
+        units=[('codec_mut', r'(Version)'), ('verstr', r'(from_str|fmt|lemma_display|C20)')],
         kani=['c20_version_gte_lt', 'c20_gate_monotone'],
     ),
     'C15': dict(
@@ -95,11 +96,11 @@ PROPS = {
         kani=[],
     ),
     'C18': dict(
-        units=[('slpp', r'(tar_append|^write$|^read$|read_peppi|lemma_unknown|lemma_run_|C18)')],
+        units=[('slpp', r'(tar_append|(^|::)write$|(^|::)read$|read_peppi|lemma_unknown|lemma_run_|C18)')],
         kani=['c18_assert_current_version'],
     ),
     'C02': dict(
-        units=[('slpp', r'(tar_append|^write$|^read$|read_peppi|read_arrow_frames|lemma_slpp_roundtrip|lemma_run_concat|lemma_names|C02|C18\.)'),
+        units=[('slpp', r'(tar_append|(^|::)write$|(^|::)read$|read_peppi|read_arrow_frames|lemma_slpp_roundtrip|lemma_run_concat|lemma_names|C02|C18\.)'),
                ('arrow', r'(into_struct_array|from_struct_array|lemma_arrow_roundtrip|C14\.(export|import|roundtrip)|arrow2\.)')],
         kani=[],
     ),
